@@ -38,7 +38,6 @@ import (
 
 	"github.com/obolnetwork/charon/app/eth2wrap"
 	"github.com/obolnetwork/charon/core"
-	"github.com/obolnetwork/charon/core/validatorapi"
 	"github.com/obolnetwork/charon/eth2util/signing"
 	"github.com/obolnetwork/charon/tbls"
 	"github.com/obolnetwork/charon/testutil"
@@ -1275,24 +1274,14 @@ type attDuty struct {
 	pk                                  core.PubKey
 }
 
-type vcEnv struct {
-	att       []attDuty
-	proposer  map[uint64]core.PubKey
-	proposals map[uint64]*eth2api.VersionedProposal
-	subCalls  int
-	failAt    int
-	calls     []obsCall
-}
-
 type obsCall struct {
 	sub  int
 	duty core.Duty
 	set  core.ParSignedDataSet
 }
 
-var env *vcEnv
-
 var errSubFail = fmt.Errorf("harness-sub-fail")
+
 // unsignedOf builds the consensus proposal (what dutydb would hold) for a signed proposal.
 func unsignedOf(p *eth2api.VersionedSignedProposal) *eth2api.VersionedProposal {
 	u := &eth2api.VersionedProposal{Version: p.Version, Blinded: p.Blinded}
